@@ -248,11 +248,12 @@ pub fn map_entries<const NE: usize>(fail_at: usize) {
 }
 
 /// (iv) HashSet::deserialize_in_place replaces the previous contents.
-pub fn set_in_place<const N: usize, const NE: usize>() {
+pub fn set_in_place<const N: usize, const NE: usize>(items: usize) {
     let h: [u64; K] = any();
     unsafe { crate::c07::DEF_H = h };
     let mut s: HashSet<u8, TabHasher> = HashSet::with_capacity_and_hasher(capreq(N), TabHasher { h });
-    let st = fill::<(u8, ()), _, N>(hv::raw_of_set(&mut s), Spec { items: SYM, deleted: SYM, kind: InvKind::Full, h: &h, distinct: true, id_is_slot: false, layout: None, concrete_tags: None });
+    // concrete number of old elements (symbolic counts re-open the resize paths of reserve/insert)
+    let st = fill::<(u8, ()), _, N>(hv::raw_of_set(&mut s), Spec { items, deleted: 0, kind: InvKind::Full, h: &h, distinct: true, id_is_slot: false, layout: None, concrete_tags: None });
     let items: [(u8, u8); MAXE] = any();
     let mut i = 0;
     while i < MAXE {
